@@ -168,6 +168,7 @@ class TFLiteSemantic:
         self.specific_constraints[Op.Split].append(TFLiteSemantic.constraint_split_num_splits)
 
         # SplitV specific checks:
+        self.specific_constraints[Op.SplitV].append(TFLiteSemantic.constraint_splitv_inputs_const)
         self.specific_constraints[Op.SplitV].append(TFLiteSemantic.constraint_splitv_inferred)
 
         # StridedSlice specific checks:
@@ -510,6 +511,22 @@ class TFLiteSemantic:
         axis += dims if axis < 0 else 0
         valid = input_tens.shape[axis] % num_splits == 0
         return valid, f"Op has ifm shape={input_tens.shape} axis={axis} num_splits={num_splits}"
+
+    @staticmethod
+    def constraint_splitv_inputs_const(op):
+        "Size splits and Axis Input tensors must be constant"
+        valid = True
+        extra = []
+        sizes = op.inputs[1]
+        axis = op.inputs[2] if len(op.inputs) > 2 else None
+        if sizes.values is None:
+            valid = False
+            extra.append(f"Size splits tensor '{sizes.name}'")
+        if axis is not None and axis.values is None:
+            valid = False
+            extra.append(f"Axis tensor '{axis.name}'")
+        extra = ", ".join(extra)
+        return valid, f"Op has non-constant tensors: {extra}"
 
     @staticmethod
     def constraint_splitv_inferred(op):
